@@ -6,7 +6,8 @@
 (*   Start     a run begins (program, entry point, cancellation point k)       *)
 (*   Returned  the API call came back after the context was cancelled          *)
 (*             (its error text, its latency in ms, whether the evaluation had  *)
-(*             already finished by itself)                                     *)
+(*             already finished by itself, and whether it was cancelled while  *)
+(*             EVERY goroutine was waiting in a channel operation)             *)
 (*   Resume(g) goroutine g, which was about to execute an operation when the   *)
 (*             call returned, executes that in-flight operation                *)
 (*   Op(g)     goroutine g BEGINS a new interpreted operation after the return *)
@@ -18,7 +19,12 @@
 (* The property, per run: the call returns the context's error promptly; from  *)
 (* then on every goroutine completes at most the one operation it had in       *)
 (* flight (ops[g] <= 1), causes at most the side effect of that operation      *)
-(* (ticks[g] <= 1), and exits (Quiesce sees none left).                        *)
+(* (ticks[g] <= 1), and exits (Quiesce sees none left).  When the evaluation   *)
+(* was cancelled while every goroutine was waiting in a channel operation, the *)
+(* operation in flight IS that channel operation: a goroutine the cancellation *)
+(* releases executes nothing more, not even one operation (Stop.tla shows the  *)
+(* schedule in which the mechanism would let it: woken between the two         *)
+(* statements of stop()).                                                       *)
 (* Runs that violate it are collected in `bad` (with the reason), so that one  *)
 (* pass over the concatenated trace judges every run.                          *)
 EXTENDS Naturals, Sequences, FiniteSets, TLC, Json
@@ -32,8 +38,9 @@ VARIABLES l,       \* next line of the trace
           phase,   \* "idle" | "running" | "returned" | "quiesced"
           ops,     \* goroutine -> operations executed after the return
           ticks,   \* goroutine -> host side effects after the return
+          blocked, \* the run was cancelled while every goroutine was waiting in a channel operation
           bad      \* set of <<run, reason>>
-vars == <<l, run, phase, ops, ticks, bad>>
+vars == <<l, run, phase, ops, ticks, blocked, bad>>
 
 Ev == Trace[l]
 IsEvent(e) == l <= Len(Trace) /\ Ev.e = e /\ l' = l + 1
@@ -42,50 +49,53 @@ Bump(f, g) == IF g \in DOMAIN f THEN [f EXCEPT ![g] = @ + 1] ELSE f @@ (g :> 1)
 Get(f, g)  == IF g \in DOMAIN f THEN f[g] ELSE 0
 Empty == [x \in {} |-> 0]
 
-Init == l = 1 /\ run = "" /\ phase = "idle" /\ ops = Empty /\ ticks = Empty /\ bad = {}
+Init == l = 1 /\ run = "" /\ phase = "idle" /\ ops = Empty /\ ticks = Empty /\ blocked = FALSE /\ bad = {}
 
 \* also the reset between concatenated runs
 Start ==
     /\ IsEvent("Start") /\ phase \in {"idle", "quiesced"}
-    /\ run' = Ev.run /\ phase' = "running" /\ ops' = Empty /\ ticks' = Empty
+    /\ run' = Ev.run /\ phase' = "running" /\ ops' = Empty /\ ticks' = Empty /\ blocked' = FALSE
     /\ UNCHANGED bad
 
 Returned ==
     /\ IsEvent("Returned") /\ phase = "running"
-    /\ phase' = "returned"
+    /\ phase' = "returned" /\ blocked' = Ev.blocked
     /\ bad' = bad
          \cup (IF ~Ev.finished /\ Ev.err # "context canceled" /\ Ev.err # "context deadline exceeded"
                THEN {<<run, "call did not return the context's error">>} ELSE {})
          \cup (IF Ev.latency_ms > MaxLatencyMs THEN {<<run, "call did not return promptly">>} ELSE {})
     /\ UNCHANGED <<run, ops, ticks>>
 
+Released == IF blocked THEN {<<run, "goroutine released from a blocked channel operation by the cancellation went on executing">>}
+            ELSE {}
+
 \* an operation executed after the return: the in-flight one (Resume) or a new one (Op)
 OpAfter(kind) ==
     /\ IsEvent(kind) /\ phase = "returned"
     /\ ops' = Bump(ops, Ev.g)
-    /\ bad' = IF Get(ops, Ev.g) >= 1
-              THEN bad \cup {<<run, "goroutine executed more than one operation after the call returned">>}
-              ELSE bad
-    /\ UNCHANGED <<run, phase, ticks>>
+    /\ bad' = (IF Get(ops, Ev.g) >= 1
+               THEN bad \cup {<<run, "goroutine executed more than one operation after the call returned">>}
+               ELSE bad) \cup Released
+    /\ UNCHANGED <<run, phase, ticks, blocked>>
 
 Tick ==
     /\ IsEvent("Tick") /\ phase = "returned"
     /\ ticks' = Bump(ticks, Ev.g)
-    /\ bad' = IF Get(ticks, Ev.g) >= 1
-              THEN bad \cup {<<run, "goroutine caused more than one side effect after the call returned">>}
-              ELSE bad
-    /\ UNCHANGED <<run, phase, ops>>
+    /\ bad' = (IF Get(ticks, Ev.g) >= 1
+               THEN bad \cup {<<run, "goroutine caused more than one side effect after the call returned">>}
+               ELSE bad) \cup Released
+    /\ UNCHANGED <<run, phase, ops, blocked>>
 
 Follow ==
     /\ IsEvent("Follow") /\ phase = "returned"
     /\ bad' = IF Ev.ok THEN bad ELSE bad \cup {<<run, "interpreter unusable after the cancelled evaluation">>}
-    /\ UNCHANGED <<run, phase, ops, ticks>>
+    /\ UNCHANGED <<run, phase, ops, ticks, blocked>>
 
 Quiesce ==
     /\ IsEvent("Quiesce") /\ phase = "returned"
     /\ phase' = "quiesced"
     /\ bad' = IF Ev.extra > 0 THEN bad \cup {<<run, "interpreted goroutines still alive">>} ELSE bad
-    /\ UNCHANGED <<run, ops, ticks>>
+    /\ UNCHANGED <<run, ops, ticks, blocked>>
 
 Next == Start \/ Returned \/ OpAfter("Resume") \/ OpAfter("Op") \/ Tick \/ Follow \/ Quiesce
 Spec == Init /\ [][Next]_vars
